@@ -28,6 +28,7 @@ Emit ==
                            THEN <<[bt |-> "within", r |-> <<0, 2, 3>>, table |-> TableJ(AveragedTable(Ds, X, m, axis, "within", Ths, Legend))],
                                   [bt |-> "above=", r |-> <<0, 2>>, table |-> TableJ(AveragedTable(Ds, X, m, axis, "above=", <<R(0), R(2)>>, Legend))]>>
                            ELSE <<>>,
+                 thr |-> IF axis = "threshold" THEN [bt \in {"below", "below=", "above="} |-> TableJ(ThresholdTable(X, m, bt, ThsGiven, Legend))] ELSE [bt \in {} |-> <<>>],
                  acc |-> IF axis = "threshold" THEN <<>> ELSE TableJ(ScoreTable(Ds, X, m, axis, Cfg, TRUE, Legend))]))
 Init == /\ gen \in {x \in Universe(0) : Usable(x)} /\ m \in Menu /\ axis \in AxisMenu /\ phase = "case"
         /\ (axis = "threshold" => m \in {"ets", "hit", "n"})
